@@ -96,6 +96,8 @@ def m_isinstance(I, path, args, kwargs):
 def m_issubclass(I, path, args, kwargs):
     c, k = args
     classes = class_list(k)
+    if isinstance(c, SV) and I.hooks.get("issubclass_opaque"):
+        return I.hooks["issubclass_opaque"](I, path, c, classes)
     if isinstance(c, SCls) or any(isinstance(x, SCls) for x in classes):
         h = I.hooks.get("issubclass_guard")
         if h:
